@@ -98,7 +98,7 @@ def make_inputs(rnd, endpoint, n):
     good = f"GET {endpoint} HTTP/1.1\r\nHost: localhost\r\nAccept: */*\r\n\r\n".encode()
     out = []
     kinds = ["valid", "valid_min", "other_path", "other_method", "truncated", "truncated", "binary", "invalid_utf8", "huge", "header_flood", "frag1", "frag2", "empty",
-             "no_spaces", "only_crlf", "lf_only", "many_conn", "prefix_path", "query", "head", "post_body", "nul_bytes", "long_line"]
+             "no_spaces", "only_crlf", "lf_only", "many_conn", "prefix_path", "query", "head", "post_body", "nul_bytes", "long_line", "foreign_bytes", "foreign_bytes"]
     for i in range(n):
         k = kinds[i % len(kinds)] if i < len(kinds) else rnd.choice(kinds)
         if k == "valid":
@@ -125,6 +125,12 @@ def make_inputs(rnd, endpoint, n):
             out.append((k, [bytes(rnd.randrange(256) for _ in range(rnd.choice([1, 17, 300])))], None))
         elif k == "invalid_utf8":
             out.append((k, [b"GET " + endpoint.encode() + b" HTTP/1.1\r\nX: \xff\xfe\xfa\r\n\r\n"], None))
+        elif k == "foreign_bytes":
+            # the endpoint's request with bytes that are not UTF-8 INSIDE the method or the path: another method/path
+            line = f"GET {endpoint}".encode()
+            pos = rnd.randrange(0, len(line) + 1)
+            junk = rnd.choice([b"\xff", b"\x80", b"\xe2\x82", b"\xc3", b"\xf0\x9f\x98"])
+            out.append((k, [line[:pos] + junk + line[pos:] + b" HTTP/1.1\r\nHost: a\r\n\r\n"], -1))
         elif k == "nul_bytes":
             out.append((k, [b"\x00" * 64 + good], None))
         elif k == "huge":
@@ -311,7 +317,12 @@ async def scenario(case, out, stats, fps, samples, incon):
             fps.add(hashlib.sha1(b"|".join(chunks)[:4096] + str(len(chunks)).encode() + str(expected["code"]).encode()).hexdigest()[:12])
             if how == "refused":
                 out.append(V("server_dead_after_input", kind, f"connection refused when sending input {kind}"))
-            if want is not None:
+            if want == -1:
+                stats["foreign_byte_requests"] += 1
+                code = status_of(resp) if resp else None
+                if code in (200, 503):
+                    out.append(V("wrong_status", kind, f"{chunks[0][:60]!r} is not a GET of the endpoint, yet it was answered with the health status {code}"))
+            elif want is not None:
                 stats["wellformed_checked"] += 1
                 w_ = want if want != 200 else expected["code"]
                 code = status_of(resp) if resp else None
